@@ -255,6 +255,52 @@ fn sweep_case(idx: u64, rec: &mut Rec) {
     offer(Target::Chunked, &c, false, rec);
 }
 
+/// chunk size lines of every length 1..=24 in several digit patterns (numeric range edges of the
+/// size parser: 16 hex digits fill a usize, the sanity limit is 20 bytes)
+fn size_line_case(idx: u64, rec: &mut Rec) {
+    let len = 1 + (idx % 24) as usize;
+    let pat = (idx / 24) % 8;
+    let ext = (idx / 192) % 2 == 1;
+    let mut digits: Vec<u8> = match pat {
+        0 => vec![b'f'; len],
+        1 => {
+            let mut v = vec![b'0'; len];
+            v[0] = b'1';
+            v
+        }
+        2 => {
+            let mut v = vec![b'0'; len];
+            v[len - 1] = b'2';
+            v
+        }
+        3 => vec![b'F'; len],
+        4 => (0..len).map(|i| b"fedcba9876543210"[i % 16]).collect(),
+        5 => {
+            let mut v = vec![b'8'; len];
+            v[0] = b'7';
+            v
+        }
+        6 => {
+            let mut v = vec![b'0'; len];
+            v[0] = b'+';
+            v
+        }
+        _ => {
+            let mut v = vec![b' '; len];
+            v[len / 2] = b'3';
+            v
+        }
+    };
+    if ext {
+        digits.extend_from_slice(b";x=1");
+    }
+    let mut s = digits;
+    s.extend_from_slice(b"\r\nab\r\n0\r\n\r\n");
+    rec.cov(&format!("size-line/len{}", if len <= 16 { "<=16" } else if len <= 20 { "17..20" } else { ">20" }));
+    offer(Target::Chunked, &s, false, rec);
+    offer(Target::Chunked, &s, true, rec);
+}
+
 fn mutate(rng: &mut Rng, stream: &mut Vec<u8>) -> &'static str {
     if stream.is_empty() {
         stream.extend_from_slice(b"\r\n");
@@ -568,6 +614,7 @@ impl Property for P {
             Workload::new(if k == 3 { "tokens-3" } else { "tokens-5" }, 20u64.pow(k) * 4, true, format!("all sequences of {} tokens x 2 calls x whole/growing", k)),
             Workload::new("tokens-short", (1..k).map(|n| 20u64.pow(n)).sum::<u64>() * 4, true, "all shorter token sequences"),
             Workload::new("byte-sweeps", 8 * 256, true, "every byte value at 8 head positions and 2 chunk positions"),
+            Workload::new("chunk-size-lines", 24 * 8 * 2, true, "chunk size lines of every length 1..=24 x 8 digit patterns x extension"),
             Workload::new("mutations", tier.pick(30_000, 6_000_000), false, "mutated valid exchanges under random schedules"),
             Workload::new("five-close-conditions", 64, true, "HTTP/1.0 + client close + refused 100 + server close + close-delimited"),
         ]
@@ -601,6 +648,7 @@ impl Property for P {
                 }
             }
             "byte-sweeps" => sweep_case(idx, rec),
+            "chunk-size-lines" => size_line_case(idx, rec),
             "mutations" => {
                 let mut rng = Rng::derive(seed, wl, idx);
                 mutation_case(&mut rng, rec)
@@ -622,6 +670,7 @@ impl Property for P {
         v.push(("outcome/completed".into(), 100));
         v.push(("outcome/error/*".into(), 100));
         v.push(("five-reasons/5".into(), 8));
+        v.push(("size-line/len17..20".into(), 50));
         v
     }
 }
